@@ -272,7 +272,10 @@ example : lpcFitCasts [13107200, -2147483647, 77, 2147483647] = [9046, -32728, 0
     all table reads in bounds and no 32-bit wrap in the cosine interpolation (`cosLsfTrace`), none in
     `silk_NLSF2A_find_poly`, `Ptmp`, `Qtmp`, `-Qtmp` (`nlsf2aPolyTrace`; majorant `C(10,n)·2^16`),
     `a32_QA1` fits (`|·| ≤ 4·C(10,5)·2^16 = 66060288`), and with it everything of `lpc_fit_int16`:
-    the whole of `silk_NLSF2A` runs without signed overflow and without a truncating cast. -/
+    the whole of `silk_NLSF2A` runs without signed overflow and without a truncating cast; in
+    particular the truncation counter `tr` that the driver reports for the `nlsf2a` op (and that the
+    harness measures on the real function by wrapping `silk_LPC_fit`, `silk_bwexpander_32` and
+    `silk_LPC_inverse_pred_gain_c`) is 0. -/
 theorem nlsf2a_nowrap_d10 (nlsf : List Int) (hd : nlsf.length = 10) (hr : ∀ e ∈ nlsf, 0 ≤ e ∧ e ≤ 32767) :
     (∀ x ∈ nlsf, ∃ c cv nx, cosLsf x = .ok c ∧ getI SilkNlsf.lsfCosTabQ12 (x / 256) = .ok cv ∧
         getI SilkNlsf.lsfCosTabQ12 (x / 256 + 1) = .ok nx ∧ ∀ v ∈ cosLsfTrace x cv nx, I32 v) ∧
@@ -281,7 +284,9 @@ theorem nlsf2a_nowrap_d10 (nlsf : List Int) (hd : nlsf.length = 10) (hr : ∀ e 
       (∀ v ∈ nlsf2aTailTrace (nlsf2aPoly c), I32 v) ∧ (∀ v ∈ lpcFitLoopDivisors 10 (nlsf2aPoly c) 0, v ≠ 0) ∧
       (∀ v ∈ nlsf2aCasts (nlsf2aPoly c), I16 v) ∧
       nlsf2a nlsf = .ok (nlsf2aLoop SilkNlsf.maxLpcStabilizeIterations 0 (lpcFit (nlsf2aPoly c) 5).2
-        (lpcFit (nlsf2aPoly c) 5).1) := by
+        (lpcFit (nlsf2aPoly c) 5).1) ∧
+      nlsf2aTr nlsf = .ok (nlsf2aLoop SilkNlsf.maxLpcStabilizeIterations 0 (lpcFit (nlsf2aPoly c) 5).2
+        (lpcFit (nlsf2aPoly c) 5).1, 0) := by
   refine ⟨fun x hx => ?_, ?_⟩
   · obtain ⟨c, cv, nx, h1, h2, h3, h4, _⟩ := cosLsf_range x (hr x hx).1 (hr x hx).2
     exact ⟨c, cv, nx, h1, h2, h3, h4⟩
@@ -291,7 +296,8 @@ theorem nlsf2a_nowrap_d10 (nlsf : List Int) (hd : nlsf.length = 10) (hr : ∀ e 
       (by intro h; have := hp.2.2; rw [h] at this; simp at this; omega) (by rw [hp.2.2]; omega)
       (fun e he => by have := hp.2.1 e he; omega)
     exact ⟨c, hc, hp.1, fun e he => by have := hp.2.1 e he; omega, ht.1, ht.2.1, ht.2.2,
-      (nlsf2a_eq nlsf c (Or.inl hd) hc).2⟩
+      (nlsf2a_eq nlsf c (Or.inl hd) hc).2,
+      by rw [nlsf2aTr_eq nlsf c (Or.inl hd) hc, truncCount_zero _ ht.2.2]⟩
 
 example : nlsf2aA32 [32767, 0, 32767, 0, 32767, 0, 32767, 0, 32767, 0] =
     .ok [0, -7208960, 0, -43253760, 0, -60555264, 0, -21626880, 0, -1441792] := by decide +kernel
@@ -314,7 +320,7 @@ theorem nlsf2a_nowrap_d16_partial (nlsf : List Int) (hd : nlsf.length = 16)
         (lpcFit (nlsf2aPoly c) 5).1) ∧
       ((hA : ∀ e ∈ nlsf2aPoly c, -2147483647 ≤ e ∧ e ≤ 2147483647) →
         (∀ v ∈ nlsf2aTailTrace (nlsf2aPoly c), I32 v) ∧ (∀ v ∈ lpcFitLoopDivisors 10 (nlsf2aPoly c) 0, v ≠ 0) ∧
-        (∀ v ∈ nlsf2aCasts (nlsf2aPoly c), I16 v)) := by
+        (∀ v ∈ nlsf2aCasts (nlsf2aPoly c), I16 v) ∧ ∃ a, nlsf2aTr nlsf = .ok (a, 0)) := by
   refine ⟨fun x hx => ?_, ?_⟩
   · obtain ⟨c, cv, nx, h1, h2, h3, h4, _⟩ := cosLsf_range x (hr x hx).1 (hr x hx).2
     exact ⟨c, cv, nx, h1, h2, h3, h4⟩
@@ -322,8 +328,9 @@ theorem nlsf2a_nowrap_d16_partial (nlsf : List Int) (hd : nlsf.length = 16)
     have hp := nlsf2aPoly_range c 843448320 hcb (Or.inr ⟨by omega, rfl⟩)
     refine ⟨c, hc, hp.1, fun e he => by have := hp.2.1 e he; omega, (nlsf2a_eq nlsf c (Or.inr hd) hc).2, ?_⟩
     intro hA
-    exact nlsf2aTail_range (nlsf2aPoly c)
+    have ht := nlsf2aTail_range (nlsf2aPoly c)
       (by intro h; have := hp.2.2; rw [h] at this; simp at this; omega) (by rw [hp.2.2]; omega) hA
+    exact ⟨ht.1, ht.2.1, ht.2.2, _, by rw [nlsf2aTr_eq nlsf c (Or.inr hd) hc, truncCount_zero _ ht.2.2]⟩
 
 /- the hypothesis `hA` is satisfiable: a stabilised WB vector -/
 example : nlsf2aA32 [1500, 3000, 5000, 7000, 9000, 11000, 13000, 15000, 17000, 19000, 21000, 23000, 25000,
